@@ -11,9 +11,9 @@ Every function is translated into the monad `Option (… × value)`:
             in evaluation order through `O.and/or/iff/xor/ite` (record `Compile.Ops`);
   `&mut` parameters are returned next to the value; mutable locals are re-bound (SSA).
 Statements are translated one by one in continuation-passing style: `let`, assignment, `if` /
-`if let` / `match` (arm by arm, guards become `if`), early `return`, `for` (↦ `TieAux.forIn`, with
+`if let` / `match` (arm by arm, guards become `if`), early `return`, `for` (↦ `TieAuxC.forIn`, with
 `break` ↦ `.done`, `continue` ↦ `.yield`; the body is a separate generated definition),
-`while` (↦ `TieAux.whileFuel`), self-recursion (structural on an inductive argument, or with an
+`while` (↦ `TieAuxC.whileFuel`), self-recursion (structural on an inductive argument, or with an
 explicit fuel argument that is consumed on the paths that recurse).
 
 Mapping table (trusted, kept small)
@@ -35,8 +35,8 @@ Mapping table (trusted, kept small)
   BddPtr::Reg(n) | BddPtr::Compl(n) ↦ .node c v lo hi with  n ↦ .node false v lo hi (the key), bdd.is_neg() ↦ c,
   bdd.low_raw() ↦ lo, bdd.high_raw() ↦ hi, n.var ↦ v
   enum constructors / patterns: see ENUMS below (field order of struct variants; `cutset`, `vars` of DTree must be `_`)
-  it.map(|x| e) ↦ it.map fun x => e      it.reduce(f) ↦ TieAux.reduce f it      o.unwrap_or(d) ↦ o.getD d
-  v.dedup_by_key(|x| e) ↦ v := TieAux.dedupByKey (fun x => e) v     Self::or / Self::and … as function values ↦ fun a b => Plan.or a b
+  it.map(|x| e) ↦ it.map fun x => e      it.reduce(f) ↦ TieAuxC.reduce f it      o.unwrap_or(d) ↦ o.getD d
+  v.dedup_by_key(|x| e) ↦ v := TieAuxC.dedupByKey (fun x => e) v     Self::or / Self::and … as function values ↦ fun a b => Plan.or a b
   sexpr.variable_mapping() ↦ Ser.LogicalSExpr.variableMapping sexpr   (NOT translated: sort + HashMap::from_iter of the std library)
   HashSet of names (unique_variables) ↦ List (only membership matters): HashSet::new() ↦ [], HashSet::from([s]) ↦ [s],
   a.union(&b) ↦ a ++ b
@@ -745,7 +745,7 @@ def match_arms(sv, arms, cx, k):
 def rust_ty(text, cfg):
     t = (text or "").replace(" ", "")
     t = re.sub(r"<'[a-z_]+>", "", t)
-    table = {"Vec<BddPtr>": "List P", "BinaryHeap<CompiledCNF>": "TieAux.AHeap P", "Vec<SDDAnd>": "List Ser.SddAnd",
+    table = {"Vec<BddPtr>": "List P", "BinaryHeap<CompiledCNF>": "TieAuxC.AHeap P", "Vec<SDDAnd>": "List Ser.SddAnd",
              "Vec<SerBDD>": "Array Ser.SerBdd", "usize": "Nat", "bool": "Bool"}
     return table.get(t)
 
@@ -792,7 +792,7 @@ def gen_call(spec, args, cx, k):
 def length_of(v):
     if v.ty and v.ty.startswith("Array"):
         return "%s.size" % paren(v.term)
-    if v.ty and v.ty.startswith("TieAux.AHeap"):
+    if v.ty and v.ty.startswith("TieAuxC.AHeap"):
         return "%s.len" % paren(v.term)
     return "%s.length" % paren(v.term)
 
@@ -814,7 +814,7 @@ def X_call(e, cx, k):
     if path == ["HashSet", "from"] and len(args) == 1:
         return X(args[0], cx, k)   # a Rust array literal `[s]` is parsed as … see X_array below
     if path == ["BinaryHeap", "new"] and not args:
-        return k(V("TieAux.AHeap.new", "TieAux.AHeap P"), cx)
+        return k(V("TieAuxC.AHeap.new", "TieAuxC.AHeap P"), cx)
     if cfg.ops and path in (["BddPtr", "true_ptr"], ["BddPtr", "false_ptr"]) and not args:
         return k(V("O.tru" if last == "true_ptr" else "O.fls", "P"), cx)
     if last in cfg.rec_names and (len(path) == 1 or path[0] in ("Self",) + tuple(cfg.self_types)):
@@ -907,11 +907,11 @@ def X_mcall(e, cx, k):
     if name == "unwrap" and not args and recv[0] == "mcall" and recv[2] == "pop" and not recv[3] and recv[1][0] == "var":
         hn = recv[1][1]
         hv = cx.env.get(hn)
-        if isinstance(hv, V) and hv.ty == "TieAux.AHeap P":
+        if isinstance(hv, V) and hv.ty == "TieAuxC.AHeap P":
             if cx.pure:
                 raise Untranslatable("pop in a pure context")
             r, h2 = cx.fresh("e"), cx.fresh(hn)
-            call = "TieAux.AHeap.pop strat %s" % paren(hv.term)
+            call = "TieAuxC.AHeap.pop strat %s" % paren(hv.term)
             cx.env[hn] = V(h2, hv.ty)
             rest = k(V(r, "P × Nat"), cx)
             return "match %s with\n| none => none\n| some (%s, %s) =>%s" % (call, r, h2, nested_rest(rest))
@@ -962,7 +962,7 @@ def X_mcall(e, cx, k):
             return k(V("%s.map (%s)" % (paren(t), lam), ("List " + paren(rty)) if rty else None), c)
         if name == "reduce" and len(args) == 1:
             lam, _ = closure_lambda(args[0], c, [elem_ty(ty), elem_ty(ty)])
-            return k(V("TieAux.reduce (%s) %s" % (lam, paren(t)), ("Option " + paren(elem_ty(ty))) if elem_ty(ty) else None), c)
+            return k(V("TieAuxC.reduce (%s) %s" % (lam, paren(t)), ("Option " + paren(elem_ty(ty))) if elem_ty(ty) else None), c)
         if name == "unwrap_or" and len(args) == 1:
             return X(args[0], c, lambda a, c2: k(V("%s.getD %s" % (paren(t), paren(a.term)), a.ty), c2))
         if name == "union" and len(args) == 1 and cfg.sets_as_lists:
@@ -1158,7 +1158,7 @@ def FOR(s, cx, rest):
         extra_decl = "".join(" (%s : %s)" % (b0env[n].term, b0env[n].ty) for n in used)
         c.aux.append("@[tie_unfold] def %s %s%s :\n    %s → %s → Option (ForInStep (%s)) :=\n  fun %s %s =>\n%s\n"
                      % (name, binder_decl(cfg), extra_decl, paren(sty), paren(ety), sty, state_tuple(names), x, ind(btext, 4)))
-        call = "TieAux.forIn (%s)" % " ".join([name] + binder_args(cfg) + [paren(c.env[n].term) for n in used])
+        call = "TieAuxC.forIn (%s)" % " ".join([name] + binder_args(cfg) + [paren(c.env[n].term) for n in used])
         init = cur_state(c, svars)
         new = []
         if cfg.state:
@@ -1207,7 +1207,7 @@ def WHILE(s, cx, rest):
         nm = cx.fresh(n)
         cx.env[n] = V(nm, cx.env[n].ty, cx.env[n].attrs)
         new.append(nm)
-    return "match TieAux.whileFuel (%s_cond %s) (%s %s) %s %s with\n| none => none\n| some %s =>%s" % (
+    return "match TieAuxC.whileFuel (%s_cond %s) (%s %s) %s %s with\n| none => none\n| some %s =>%s" % (
         name, args, name, args, paren(fuel), init, state_tuple(new), nested_rest(rest(cx)))
 
 
@@ -1289,14 +1289,14 @@ def SEQ(stmts, tail, cx, k):
                 return bind_local(n, V("perm " + paren(old.term), old.ty), cx, rest)
             if e[2] == "dedup_by_key" and len(e[3]) == 1:
                 lam, _ = closure_lambda(e[3][0], cx, [elem_ty(old.ty)])
-                return bind_local(n, V("TieAux.dedupByKey (%s) %s" % (lam, paren(old.term)), old.ty), cx, rest)
+                return bind_local(n, V("TieAuxC.dedupByKey (%s) %s" % (lam, paren(old.term)), old.ty), cx, rest)
             if e[2] == "push" and len(e[3]) == 1:
                 def pk(v, c):
                     o = c.env[n]
                     if o.ty and o.ty.startswith("Array"):
                         t = "%s.push %s" % (paren(o.term), paren(v.term))
-                    elif o.ty == "TieAux.AHeap P":
-                        t = "TieAux.AHeap.push %s %s" % (paren(o.term), paren(v.term))
+                    elif o.ty == "TieAuxC.AHeap P":
+                        t = "TieAuxC.AHeap.push %s %s" % (paren(o.term), paren(v.term))
                     elif o.ty and (o.ty.startswith("List") or o.ty in ("Clause", "Cnf")):
                         t = "%s ++ [%s]" % (paren(o.term), v.term)
                     else:
@@ -1414,7 +1414,7 @@ FUNS = [
        lean="compileCnf", implicit=OPS_IMPL, binders=[("O", "Ops σ P"), ("perm", "List Clause → List Clause")],
        params=[("cnf", "Cnf")], state="s", ops=True, perm=True, ret_ty="P", ret_tuple_ty="σ × P",
        calls={"collapse_clauses": dict(lean="collapse", binders=["O"], fuel_arg=0, state=True, ret_ty="Option P")},
-       fallback="@TieAux.compileCnfPerm"),
+       fallback="@TieAuxC.compileCnfPerm"),
     mk(key="BddBuilder::compile_cnf_with_assignments", file="src/builder/bdd/builder.rs", rust="compile_cnf_with_assignments",
        lean="compileWithAssign", implicit=OPS_IMPL, binders=[("O", "Ops σ P"), ("strat", "Strategy P")],
        params=[("cnf", "Cnf"), ("assgn", "PModel")], state="s", ops=True, ret_ty="P", ret_tuple_ty="σ × P",
